@@ -31,12 +31,13 @@ EXCS = ["ValueError", "KeyError", "TypeError", "IndexError", "ZeroDivisionError"
 
 
 class Gen:
-    def __init__(self, draw, version, exec_safe=False, size=4):
+    def __init__(self, draw, version, exec_safe=False, size=4, bulk=True):
         self.draw = draw
         self.v = vt(version)
         self.py2 = self.v < (3, 0)
         self.exec_safe = exec_safe
         self.size = size
+        self.bulk = bulk
         self.lines = []
         self.uid = 0
         self.features = set()
@@ -415,7 +416,7 @@ class Gen:
                 self.block(depth + 2, ctx, 1)
         elif k == 30 and self.py2 and not ctx.get("func"):
             e(depth, "exec %s in %s" % (self.name(), self.name()))
-        elif k == 31:
+        elif k == 31 and self.bulk:
             self.many(depth)
         else:
             e(depth, "pass")
@@ -548,8 +549,8 @@ class Gen:
 
 
 @st.composite
-def programs(draw, version, exec_safe=False, size=4):
-    g = Gen(draw, version, exec_safe, size)
+def programs(draw, version, exec_safe=False, size=4, bulk=True):
+    g = Gen(draw, version, exec_safe, size, bulk)
     src = g.module()
     return src
 
